@@ -33,6 +33,7 @@ type scripted struct {
 	runaway   bool
 	overrun   bool // an attempt was made after the successful one, or attemptsCap was reached
 	extra     int  // attempts after the successful one
+	cap       int  // > 0: more attempts than this are beyond every bound of the case (timeouts of zero or less: one attempt)
 	same      int // consecutive attempts started at the same (virtual) instant
 	errKind   int // which error value failed attempts return (varied per attempt)
 	firstDur  time.Duration
@@ -121,7 +122,7 @@ func (s *scripted) Get(url string) (map[string][]string, []byte, error) {
 			return s.header, s.body, nil
 		}
 	}
-	if len(s.starts) >= attemptsCap || s.extra >= 1000 {
+	if len(s.starts) >= attemptsCap || s.extra >= 1000 || (s.cap > 0 && len(s.starts) >= s.cap) {
 		// more attempts than any setting of the checks allows: with a timeout as large as the type allows such a call
 		// would go on for ever - unwind it (safeGet reports what happened)
 		s.overrun = true
@@ -168,6 +169,9 @@ func (c c20Case) String() string {
 // newScripted builds the wrapped getter of one call.
 func newScripted(c c20Case, s *gen.Stream) (*scripted, []byte) {
 	sg := &scripted{successAt: c.SuccessAt, dur: c.Dur, errKind: c.ErrKind, firstDur: c.FirstDur}
+	if c.Timeout < 0 {
+		sg.cap = 1000 // the time is up before the call starts
+	}
 	switch c.HeaderKind {
 	case 0:
 		sg.header = nil
@@ -237,7 +241,7 @@ func judge(c c20Case, sg *scripted, wantBody []byte, h map[string][]string, b []
 		return "success-discarded", fmt.Sprintf("%s: attempt %d succeeded but an error was returned: %v", c, c.SuccessAt, err)
 	}
 	// (3) bounded give-up
-	bound := satAdd(satAdd(c.Timeout, c.MaxDelay), 2*c.Dur+time.Millisecond)
+	bound := satAdd(satAdd(maxDur(c.Timeout, 0), c.MaxDelay), 2*c.Dur+time.Millisecond)
 	if c.FirstDur > 0 && attempts <= 1 {
 		bound = satAdd(bound, c.FirstDur) // the only attempt was the slow one: it is allowed to finish
 	}
@@ -390,9 +394,17 @@ func TestC20(t *testing.T) {
 						}
 						c := c20Case{Timeout: to, MaxDelay: mx, Dur: d, SuccessAt: k, HeaderKind: idx % 3, BodyLen: []int{-1, 0, 17, 1 << 16}[idx%4], ErrKind: (idx / 3) % (2 * nErrKinds)}
 						var key, detail string
-						synctest.Test(t, func(t *testing.T) {
-							key, detail = runCase(c, gen.NewStream(uint64(idx), "c20"))
-						})
+						if wk, wd := watched(func() {
+							synctest.Test(t, func(t *testing.T) {
+								key, detail = runCase(c, gen.NewStream(uint64(idx), "c20"))
+							})
+						}); wk != "" {
+							key, detail = wk, c.String()+": "+wd
+						}
+						if key == "inconclusive" {
+							gen.Inconclusive(detail)
+							return
+						}
 						gen.Eval()
 						if key != "" {
 							fail(t, key, detail, c)
@@ -415,13 +427,17 @@ func TestC20(t *testing.T) {
 	// two); a success after a few failures is still returned, the waits are still waits
 	gen.Direct(t, "largest-settings", func(t *testing.T) {
 		year := 365 * 24 * time.Hour
-		timeouts := []time.Duration{math.MaxInt64, math.MaxInt64 - time.Second, math.MaxInt64 / 2, math.MaxInt64/2 + 1, 200 * year, 150 * year, 100 * year}
-		maxes := []time.Duration{time.Nanosecond, time.Millisecond, time.Second, 4 * time.Second, 30 * time.Second, 10 * time.Minute, 100 * year, 150 * year, math.MaxInt64}
+		// (negative timeouts: the time is up before the call starts - one attempt, then the error)
+		timeouts := []time.Duration{math.MaxInt64, math.MaxInt64 - time.Second, math.MaxInt64 / 2, math.MaxInt64/2 + 1, 200 * year, 150 * year, 100 * year, -time.Nanosecond, -time.Second, -100 * year, math.MinInt64}
+		maxes := []time.Duration{time.Nanosecond, 999 * time.Nanosecond, 10 * time.Microsecond, 999 * time.Microsecond, time.Millisecond, time.Second, 4 * time.Second, 30 * time.Second, 10 * time.Minute, 100 * year, 150 * year, math.MaxInt64}
 		idx := 0
 		for _, to := range timeouts {
 			for _, mx := range maxes {
 				for _, d := range []time.Duration{0, time.Millisecond, 3 * time.Second} {
-					for _, k := range []int{1, 2, 3, 7, 20} {
+					for _, k := range []int{0, 1, 2, 3, 7, 20} {
+						if k == 0 && to > time.Second {
+							continue // failures for ever under a timeout of centuries: no end to wait for
+						}
 						idx++
 						if !gen.ShardOwns(idx) {
 							continue
@@ -431,9 +447,17 @@ func TestC20(t *testing.T) {
 							c.Earlier = time.Hour
 						}
 						var key, detail string
-						synctest.Test(t, func(t *testing.T) {
-							key, detail = runCase(c, gen.NewStream(uint64(idx), "c20big"))
-						})
+						if wk, wd := watched(func() {
+							synctest.Test(t, func(t *testing.T) {
+								key, detail = runCase(c, gen.NewStream(uint64(idx), "c20big"))
+							})
+						}); wk != "" {
+							key, detail = wk, c.String()+": "+wd
+						}
+						if key == "inconclusive" {
+							gen.Inconclusive(detail)
+							return
+						}
 						gen.Eval()
 						if key != "" {
 							fail(t, key, detail, c)
@@ -486,9 +510,17 @@ func TestC20(t *testing.T) {
 			c.Timeout = step * 5000
 		}
 		var key, detail string
-		rapid.SyncTest(t, func(t *rapid.T) {
-			key, detail = runCase(c, gen.NewStream(uint64(c.Timeout)^uint64(c.SuccessAt), "c20r"))
-		})
+		if wk, wd := watched(func() {
+			rapid.SyncTest(t, func(t *rapid.T) {
+				key, detail = runCase(c, gen.NewStream(uint64(c.Timeout)^uint64(c.SuccessAt), "c20r"))
+			})
+		}); wk != "" {
+			key, detail = wk, c.String()+": "+wd
+		}
+		if key == "inconclusive" {
+			gen.Inconclusive(detail)
+			t.Skip("inconclusive")
+		}
 		gen.Eval()
 		if key != "" {
 			fail(t, key, detail, c)
@@ -569,6 +601,30 @@ func runConcurrentWatched(t *testing.T, cs []c20Case, s *gen.Stream) (key, detai
 		}
 	}
 	return "inconclusive", "concurrent callers did not finish within 45 s of real time and no caller is waiting for a lock"
+}
+
+// watched runs one virtual-clock case under a real-time limit. A case takes milliseconds of real time whatever its
+// virtual durations; one that is still going after 40 s is spinning inside the bubble (virtual time only advances when
+// every goroutine of the bubble is blocked) - or the machine is hopelessly slow, which is reported as inconclusive.
+func watched(run func()) (key, detail string) {
+	done := make(chan struct{})
+	go func() {
+		defer close(done)
+		run()
+	}()
+	select {
+	case <-done:
+		return "", ""
+	case <-time.After(40 * time.Second):
+	}
+	buf := make([]byte, 1<<20)
+	buf = buf[:runtime.Stack(buf, true)]
+	for _, g := range strings.Split(string(buf), "\n\n") {
+		if strings.Contains(g, "trust.(*RetryHTTPSGetter).Get") && (strings.Contains(g, "[running") || strings.Contains(g, "[runnable")) {
+			return "busy-loop", "the call keeps the processor without letting (virtual) time pass: still running after 40 s of real time, not blocked in a wait"
+		}
+	}
+	return "inconclusive", "a virtual-clock case did not finish within 40 s of real time and the retrying getter is not on the processor"
 }
 
 // satAdd and satMul are additions / multiplications of non-negative durations that stop at the largest duration (the
